@@ -154,21 +154,45 @@ def build_single(src_name, out_name):
             import shutil
             shutil.rmtree(os.path.join(runner.CACHE, "s", other), ignore_errors=True)
     b = os.path.join(d, out_name)
+    return build_locked(b, ["g++"] + runner.CXXFLAGS + [os.path.join(runner.HARNESS, src_name)])
+
+
+class Infra(str):
+    """compiler output of a build that failed for reasons outside the program text (killed, out of memory, ...)"""
+
+
+def build_locked(b, cmd):
+    """build artefact `b` once (concurrent checks wait for each other); returns (path, None) | (None, compiler output)"""
     if os.path.exists(b):
         return b, None
-    r = runner.sh(["g++"] + runner.CXXFLAGS + [os.path.join(runner.HARNESS, src_name), "-o", b + ".tmp"])
-    if r.returncode != 0:
-        return None, r.stdout
-    os.rename(b + ".tmp", b)
-    return b, None
+    os.makedirs(os.path.dirname(b), exist_ok=True)
+    with runner.file_lock(b + ".lock"):
+        if os.path.exists(b):
+            return b, None
+        tmp = "%s.%d.tmp" % (b, os.getpid())
+        r = runner.gxx(cmd + ["-o", tmp])
+        if r.returncode != 0:
+            try:
+                os.remove(tmp)
+            except OSError:
+                pass
+            if getattr(r, "transient", False):
+                runner.INFRA.append("%s: compiler could not run: %s" % (os.path.basename(b), (r.stdout or "").strip()[-200:]))
+                return None, Infra(r.stdout)
+            return None, r.stdout
+        os.rename(tmp, b)
+        return b, None
 
 
 def line_protocol_compare(binary, lines, cfg_line=None):
     """run both sides on the same lines; returns (groups_impl, groups_model, abort)"""
     rc, out, err = runner.run_impl(binary, lines, timeout=300)
     inp = ((cfg_line + "\n") if cfg_line else "") + "\n".join(lines) + "\n"
-    m = subprocess.run([runner.DRIVER], input=inp, stdout=subprocess.PIPE, stderr=subprocess.PIPE, text=True, timeout=300)
-    return runner.split_ops(out), runner.split_ops(m.stdout), (runner.abort_kind(err), err[-1500:]) if rc != 0 else None
+    mrc, mout, merr = runner.run_proc([runner.DRIVER], inp, 300)
+    if rc == -998 or mrc in (-998, -999):
+        runner.INFRA.append("line protocol run not carried out: %s" % (err if rc == -998 else merr)[-120:])
+        return None, None, None
+    return runner.split_ops(out), runner.split_ops(mout), (runner.abort_kind(err), err[-1500:]) if rc != 0 else None
 
 
 def write_replay_special(prop, tier, seed, kind, lines, detail):
@@ -188,12 +212,18 @@ def generic_lines_check(prop, tier, seed, replay, binary_src, binary_name, cases
     if replay:
         cases = json.load(open(replay))["ops"]
     binary, err = build_single(binary_src, binary_name)
+    if binary is None and isinstance(err, Infra):
+        res["no_verdict"] = True
+        return res
     if binary is None:
         path = write_replay_special(prop, tier, seed, "no-failing-input-found", [], {"harness-does-not-compile": err[-3000:]})
         res["violations"].append((path, " no-failing-input-found"))
         return res
     ok, _ = runner.build_lean()
     gi, gm, abort = line_protocol_compare(binary, cases) if ok else (runner.split_ops(runner.run_impl(binary, cases, 300)[1]), [], None)
+    if gi is None:
+        res["no_verdict"] = True
+        return res
     viol = []
     div = []
     for idx, (op, obs) in enumerate(gi):
@@ -250,8 +280,8 @@ def c20_cells(tier, seed):
     ok, _ = runner.build_lean()
     if not ok:
         return None
-    m = subprocess.run([runner.DRIVER], input="matrix\n", stdout=subprocess.PIPE, text=True)
-    base = [l.split()[1:] for l in m.stdout.split("\n") if l.startswith("cell ")]
+    mrc, mout, _ = runner.run_proc([runner.DRIVER], "matrix\n", 300)
+    base = [l.split()[1:] for l in mout.split("\n") if l.startswith("cell ")]
     cells = []
     rng = random.Random(seed * 86028121 + 20)
     for (op, cat, val) in base:
@@ -289,16 +319,25 @@ def special_c20(tier, seed, replay):
         errf = os.path.join(d, name + ".err")
         if os.path.exists(okf):
             return c, None
-        if os.path.exists(errf):
-            return c, open(errf).read()
-        src = os.path.join(d, name + ".cpp")
+        e = runner.cached_error(errf)
+        if e is not None:
+            return c, e
+        src = os.path.join(d, "%s.%d.cpp" % (name, os.getpid()))
         with open(src, "w") as f:
             f.write('#include "matrix_cell.hpp"\ntemplate void mx::op_%s<mx::Cfg<mx::%s, mx::%s, %s, mx::%s>>();\n' % (op, cat, val, al, a))
-        r = runner.sh(["g++", "-std=c++17", "-fsyntax-only", "-I" + os.path.join(runner.REPO, "src"), "-I" + runner.HARNESS, src])
-        os.remove(src)
+        r = runner.gxx(["g++", "-std=c++17", "-fsyntax-only", "-I" + os.path.join(runner.REPO, "src"), "-I" + runner.HARNESS, src])
+        try:
+            os.remove(src)
+        except OSError:
+            pass
         if r.returncode != 0:
-            with open(errf, "w") as f:
-                f.write(r.stdout)
+            if getattr(r, "transient", False):
+                # the compiler could not run: no conclusion about this cell
+                runner.INFRA.append("cell %s: compiler could not run: %s" % (name, (r.stdout or "").strip()[-200:]))
+                return c, None
+            with open(errf + ".%d" % os.getpid(), "w") as f:
+                f.write(r.stdout.replace(os.path.basename(src), name + ".cpp"))
+            os.replace(errf + ".%d" % os.getpid(), errf)
             return c, r.stdout
         open(okf, "w").close()
         return c, None
@@ -334,26 +373,33 @@ def special_c20(tier, seed, replay):
     forms_ok = 0
     if not replay:
         b, err = build_flags("ctor_forms.cpp", "ctor_forms", ["-O0", "-g", "-fsanitize=address,undefined", "-fno-sanitize=alignment"])
-        if b is None:
+        if b is None and isinstance(err, Infra):
+            res["no_verdict"] = True
+        elif b is None:
             path = write_replay_special("C20", tier, seed, "failing-input", ["ctor_forms.cpp"],
                                         {"violation": "C20:documented-constructor-form-is-ill-formed", "compiler": err[-2500:]})
             res["violations"].append((path, ""))
         else:
-            r = subprocess.run([b], stdout=subprocess.PIPE, stderr=subprocess.PIPE, text=True, timeout=300,
-                               env=dict(os.environ, ASAN_OPTIONS="detect_leaks=0"))
-            viol = [l for l in r.stdout.split("\n") if l.startswith("!viol")]
-            forms_ok = len([l for l in r.stdout.split("\n") if l.startswith("form ") and "resource=1" in l])
-            if viol or r.returncode != 0 or "end failures=0" not in r.stdout:
+            rc, out, errtxt = runner.run_proc([b], None, 300, dict(os.environ, ASAN_OPTIONS="detect_leaks=0"))
+            viol = [l for l in out.split("\n") if l.startswith("!viol")]
+            forms_ok = len([l for l in out.split("\n") if l.startswith("form ") and "resource=1" in l])
+            if rc == -998:
+                runner.INFRA.append("ctor_forms not run: %s" % errtxt[-120:])
+                res["no_verdict"] = True
+            elif viol or rc != 0 or "end failures=0" not in out:
                 path = write_replay_special("C20", tier, seed, "failing-input", ["ctor_forms"],
                                             {"violation": (viol or ["C20:constructor-forms-program-aborted"])[0], "all": viol,
-                                             "exit": r.returncode, "stderr": r.stderr[-1500:]})
+                                             "exit": rc, "stderr": errtxt[-1500:]})
                 res["violations"].append((path, ""))
     # value types that can be neither copied nor moved, or only copied explicitly: construction in place, every read access,
     # pop_back and clear must still be well-formed (compile-only translation unit outside the model's table)
     pinned_ok = 0
     if not replay:
-        r = runner.sh(["g++", "-std=c++17", "-fsyntax-only", "-I" + os.path.join(runner.REPO, "src"), os.path.join(runner.HARNESS, "pinned_cells.cpp")])
-        if r.returncode != 0:
+        r = runner.gxx(["g++", "-std=c++17", "-fsyntax-only", "-I" + os.path.join(runner.REPO, "src"), os.path.join(runner.HARNESS, "pinned_cells.cpp")])
+        if r.returncode != 0 and getattr(r, "transient", False):
+            runner.INFRA.append("pinned_cells.cpp: compiler could not run")
+            res["no_verdict"] = True
+        elif r.returncode != 0:
             path = write_replay_special("C20", tier, seed, "failing-input", ["pinned_cells.cpp"],
                                         {"violation": "C20:read-access-ill-formed-for-a-type-that-is-not-implicitly-copyable", "compiler": r.stdout[-2500:]})
             res["violations"].append((path, ""))
@@ -378,13 +424,7 @@ def build_flags(src_name, out_name, flags):
     d = os.path.join(runner.CACHE, "s", sh_)
     os.makedirs(d, exist_ok=True)
     b = os.path.join(d, out_name)
-    if os.path.exists(b):
-        return b, None
-    r = runner.sh(["g++", "-std=c++17"] + flags + ["-I" + os.path.join(runner.REPO, "src"), os.path.join(runner.HARNESS, src_name), "-o", b + ".tmp"])
-    if r.returncode != 0:
-        return None, r.stdout
-    os.rename(b + ".tmp", b)
-    return b, None
+    return build_locked(b, ["g++", "-std=c++17"] + flags + ["-I" + os.path.join(runner.REPO, "src"), os.path.join(runner.HARNESS, src_name)])
 
 
 def special_c19(tier, seed, replay):
@@ -398,15 +438,23 @@ def special_c19(tier, seed, replay):
     samples = []
     for name, flags, what in runs:
         b, err = build_flags("const_ro.cpp", name, flags)
+        if b is None and isinstance(err, Infra):
+            res["no_verdict"] = True
+            continue
         if b is None:
             path = write_replay_special("C19", tier, seed, "no-failing-input-found", [], {"harness-does-not-compile": err[-3000:], "run": what})
             res["violations"].append((path, " no-failing-input-found"))
             continue
         reps = 1 if "tsan" not in name else (2 if tier == "quick" else 6)
         for _ in range(reps):
-            r = subprocess.run([b], stdout=subprocess.PIPE, stderr=subprocess.PIPE, text=True, timeout=600,
-                               env=dict(os.environ, TSAN_OPTIONS="halt_on_error=0"))
-            out = r.stdout
+            rc, out, errtxt = runner.run_proc([b], None, 600, dict(os.environ, TSAN_OPTIONS="halt_on_error=0"))
+            if rc == -998:
+                runner.INFRA.append("%s not run: %s" % (name, errtxt[-120:]))
+                res["no_verdict"] = True
+                break
+
+            class r:  # the fields used below
+                returncode, stdout, stderr = rc, out, errtxt
             viol = [l for l in out.split("\n") if l.startswith("!viol")]
             tsan = "WARNING: ThreadSanitizer" in r.stderr
             good = [l for l in out.split("\n") if l.startswith("ro ") and l.endswith("same=1") or l.startswith("threads ") and l.endswith("results_differ=0")]
